@@ -63,3 +63,7 @@ CORPUS = [
     M("n-hoist-key", L, "            self._local_key = self._get_local_key(key, response_mv)", "            local_key = self._get_local_key(key, response_mv)\n            self._local_key = local_key", "S"),
     M("n-retry-ge", L, "                if retries > 1:\n                    _LOGGER.debug(\n                        \"Authentication timeout.", "                if retries >= 2:\n                    _LOGGER.debug(\n                        \"Authentication timeout.", "S"),
 ]
+# round 6: C06 imports the C05 premises (the response handed to authenticate is the whole decoded payload)
+CORPUS += [
+    M("encrypted-payload-cut", L, "        return payload[2:].tobytes()", "        return payload[2:-1].tobytes()"),
+]
